@@ -376,7 +376,12 @@ fn decode_access(address: u32) -> Option<(ChipSelect, DataInstruction, ReadWrite
 }
 
 fn parse_command(address: u32, value: u8) -> Option<LcdCommand> {
-    let (cs, di, _rw) = decode_access(address)?;
+    let (cs, di, rw) = decode_access(address)?;
+    if rw != ReadWrite::Write {
+        // Bus writes to a read decoding (R/W address bit set) are not controller writes
+        // (matches pce500/display/hd61202.py:parse_command).
+        return None;
+    }
     let kind = if di == DataInstruction::Instruction {
         let instr = match value >> 6 {
             0b00 => LcdInstruction::OnOff,
